@@ -52,6 +52,11 @@ func (d defaultPathProcessor) ExtractParameters(r *Route, _ *WebService, urlPath
 
 				suffixLength := len(key) - endKeyIndex - 1
 				endValueIndex := len(value) - suffixLength
+				if endValueIndex < startIndex {
+					// value is shorter than the literal parts around the variable
+					pathParameters[key[startIndex+1:endKeyIndex]] = ""
+					continue
+				}
 
 				pathParameters[key[startIndex+1:endKeyIndex]] = value[startIndex:endValueIndex]
 			}
